@@ -32,6 +32,7 @@ func c16Eval(t tb, c cfgCase) {
 	var outs [][]byte
 	var reports [][]string
 	for _, f := range flagCombos {
+		f.Spelling = c.Flags.Spelling // how the four switches are written: bare, explicit =true/=false, repeated, in front
 		cc := c
 		cc.Flags = f
 		spec, err := singleFile(c.C, c.Style, f)
@@ -65,6 +66,7 @@ func c16Eval(t tb, c cfgCase) {
 	// metamorphic relation between the unflagged run and each flagged run
 	base := obs[0]
 	for i, f := range flagCombos[1:] {
+		f.Spelling = c.Flags.Spelling
 		got := obs[i+1]
 		if base.Stage != "output" {
 			// flags only concern the output validation: everything must be identical
@@ -177,9 +179,11 @@ func TestC16(t *testing.T) {
 			c.Services = append(c.Services, cfg.Service{Name: "bad", Ctor: sp("fx/lib.NewObj"), Getter: sp("MustBad")})
 			labels = append(labels, "grammar")
 		}
-		c16Eval(t, cfgCase{C: c, Labels: labels})
+		for sp := 0; sp < 4; sp++ {
+			c16Eval(t, cfgCase{C: c, Labels: append(append([]string(nil), labels...), fmt.Sprintf("flag-spelling:%d", sp)), Flags: sut.Flags{Spelling: sp}})
+		}
 	}
-	col.Exhaustive("all 32 subsets of {dangling parameter, dangling service, cycle, scope conflict, grammar defect} on a fixed base x the 4 flag combinations")
+	col.Exhaustive("all 32 subsets of {dangling parameter, dangling service, cycle, scope conflict, grammar defect} on a fixed base x the 4 flag combinations x 4 spellings of the switches (bare / explicit =true,=false / repeated with the last occurrence deciding / unset ones as =false in front of -i and -o)")
 
 	setRapidChecks(pick(80, 1500))
 	opts := gen.All()
@@ -210,7 +214,8 @@ func TestC16(t *testing.T) {
 			col.Exclude("scc-guard")
 			return
 		}
-		c16Eval(rt, cfgCase{C: c, Style: drawStyle(rt), Labels: labels})
+		sp := rapid.IntRange(0, 3).Draw(rt, "flag-spelling")
+		c16Eval(rt, cfgCase{C: c, Style: drawStyle(rt), Labels: append(labels, fmt.Sprintf("flag-spelling:%d", sp)), Flags: sut.Flags{Spelling: sp}})
 	})
 	col.Complete()
 }
